@@ -1,17 +1,35 @@
 #!/bin/bash
-# try_seed.sh <seeded-dir> [check ids...]: applies seeded/<dir>/patch.diff to /repo, runs the named checks
-# (default: the property in meta.json) in the quick tier, prints their verdict lines, and ALWAYS reverts /repo.
+# try_seed.sh <seeded-dir> [check ids...]: runs the named checks (default: the property in meta.json), quick
+# tier, against /repo WITH seeded/<dir>/patch.diff applied — without touching /repo: the patched files are
+# materialised under .build/seedrun/<dir>/src and handed to the build as an extra -overlay; binaries go to
+# .build/seedrun/<dir>/bin and evidence/replays to .build/seedrun/<dir>/out, so trial runs can go on in
+# parallel with ordinary checks. Prints the verdict lines. TIER=thorough selects the thorough tier.
 set -u
 cd /verif
-d=seeded/$1; shift
+name=$1; shift
+d=seeded/$name
 [ -f "$d/patch.diff" ] || { echo "no $d/patch.diff"; exit 2; }
 checks="$*"
 [ -n "$checks" ] || checks=$(python3 -c "import json;print(json.load(open('$d/meta.json'))['property'])")
-if ! git -C /repo diff --quiet; then echo "/repo has uncommitted changes; refusing"; exit 2; fi
-git -C /repo apply "$PWD/$d/patch.diff" || { echo "patch does not apply"; exit 2; }
-trap 'git -C /repo checkout -- . ; git -C /repo clean -fdq -- . 2>/dev/null' EXIT
+run=/verif/.build/seedrun/$name
+rm -rf "$run"; mkdir -p "$run/src" "$run/out"
+files=$(grep '^+++ b/' "$d/patch.diff" | sed 's|^+++ b/||')
+for f in $files; do mkdir -p "$run/src/$(dirname "$f")"; [ -f "/repo/$f" ] && cp "/repo/$f" "$run/src/$f"; done
+(cd "$run/src" && patch -s -p1 < "/verif/$d/patch.diff") || { echo "patch does not apply to /repo's current files"; exit 2; }
+python3 - "$run" $files <<'EOF'
+import json, sys
+run = sys.argv[1]
+json.dump({"Replace": {"/repo/" + f: run + "/src/" + f for f in sys.argv[2:]}}, open(run + "/overlay.json", "w"), indent=1)
+EOF
+export VERIF_EXTRA_OVERLAY=$run/overlay.json VERIF_BIN_DIR=$run/bin VERIF_OUT_DIR=$run/out
+rc=0
 for c in $checks; do
   echo "=== $d vs $c"
-  ${TIER_TIMEOUT:+timeout $TIER_TIMEOUT} ./vcheck $c ${TIER:-quick} 2>&1 | grep -E "^VIOLATION|signature=|^C[0-9]+ (quick|thorough):|HARNESS" | cut -c1-300 | head -12
-  echo "exit=${PIPESTATUS[0]}"
+  ${TIER_TIMEOUT:+timeout $TIER_TIMEOUT} ./vcheck $c ${TIER:-quick} > "$run/$c.log" 2>&1
+  e=$?
+  grep -v "^KNOWN" "$run/$c.log" | grep -E "^VIOLATION|signature=|^C[0-9]+ (quick|thorough):|HARNESS" | cut -c1-300 | head -12
+  echo "exit=$e"
+  [ $e -ne 0 ] && rc=$e
 done
+rm -rf "$run/bin" "$run/src"
+exit $rc
